@@ -87,9 +87,9 @@ def run(ctx, pool):
             for k, v in st["outcomes"].items():
                 stats["outcomes"][k] = stats["outcomes"].get(k, 0) + v
     n_adv = len(tw.traces)
-    n = ctx.n(3000, 400000)
+    n = ctx.n(1600, 400000)
     per = max(150, n // 64)
-    rjobs = [(ctx.seed * 100019 + 7 + j, per, 0.5, None) for j in range((n + per - 1) // per)]
+    rjobs = [(ctx.seed * 100019 + 7 + j, per, 0.35, None) for j in range((n + per - 1) // per)]
     for traces, st in core.parallel("harness.rec_solver", "record_job", rjobs):
         tw.traces.extend(traces)
         stats["nontrivial"] |= st["nontrivial"]
